@@ -256,7 +256,8 @@ FUNCTIONS = {
                          'forall_ref(r, Node, implies(old(allocated(r)), r.g_out == old(r.g_out) and r.endpoint == old(r.endpoint) and r.channel == old(r.channel)), r.g_out)'],
               modifies=_HOOK_MOD + ['HeapBalancerSink._downq'], allocates='any'),
     },
-    props=['C03', 'C04'],
+    # C09: this is where a member whose channel is open again leaves the down list and gets traffic
+    props=['C03', 'C04', 'C09'],
   ),
 
   'HeapBalancerSink.__Put': dict(
